@@ -92,6 +92,9 @@ def run(ctx):
     run_ref_mc(ctx)
     from plans import mirrored_wrapper_groups
     run_plan(ctx, plan(ctx) + mirrored_wrapper_groups(ctx, ['gp']))
+    # sympy symbols as coefficients (symbolic call path: simplification + zero filter), u*u before u*v, graded on / off
+    from symstage import run_symbolic
+    run_symbolic(ctx, ['gp'], 'symbolic_gp_events', same_ops=('gp',))
     return ctx.finish(
         rule='case = (configuration, algebra options, ordered key tuple of a, ordered key tuple of b); each compiles its own '
              'function, which is run on formal indeterminates; distinct by construction (deduplicated); non-trivial = the '
